@@ -27,6 +27,9 @@ type LexSpec struct {
 	MaxTokens   int  `json:"max_tokens,omitempty"`
 	NoOpts      bool `json:"no_opts,omitempty"`      // call NewLexer(r) with no options at all
 	ParsedFirst bool `json:"parsed_first,omitempty"` // attachment callback asks ParsedCRC before ComputedCRC
+	// AgainAfterErr: after Next returned an error, call it this many more times
+	// (a consumer that polls again); outcomes are recorded in LexResult.Again
+	AgainAfterErr int `json:"again_after_err,omitempty"`
 }
 
 func (s LexSpec) Options(cb func(*mcap.AttachmentReader) error) *mcap.LexerOptions {
@@ -58,6 +61,8 @@ type LexResult struct {
 	InvalidChunks int
 	// Mutated is non-empty when a value returned earlier was altered later.
 	Mutated string
+	// Again: outcome of each further call after the terminal error: "eof", "error", "data" or "panic: ..."
+	Again []string
 	Tokens  int
 }
 
@@ -295,6 +300,20 @@ func LexAll(src io.Reader, spec LexSpec) *LexResult {
 		}
 	})
 	res.Panic = pi
+	if pi == nil && spec.AgainAfterErr > 0 && res.Err != nil && !errors.Is(res.Err, io.EOF) && !strings.HasPrefix(res.Err.Error(), "harness") {
+		for i := 0; i < spec.AgainAfterErr; i++ {
+			out := "data"
+			if p2 := Guard(func() {
+				_, _, err := lexer.Next(nil)
+				if err != nil {
+					out = againOutcome(err)
+				}
+			}); p2 != nil {
+				out = "panic: " + p2.String()
+			}
+			res.Again = append(res.Again, out)
+		}
+	}
 	for _, k := range keep {
 		if string(k.live) != string(k.copy) {
 			res.Mutated = fmt.Sprintf("token %d (%s) changed after it was returned", k.idx, res.Recs[k.idx].Kind)
@@ -319,6 +338,7 @@ type ReadSpec struct {
 	OmitUsingIndex bool   `json:"omit_using_index,omitempty"` // rely on the default (index on)
 	OrderFirst     bool   `json:"order_first,omitempty"`
 	MaxMsgs        int    `json:"max_msgs,omitempty"`
+	AgainAfterErr  int    `json:"again_after_err,omitempty"` // see LexSpec.AgainAfterErr
 }
 
 // IterResult is what a message read returned.
@@ -333,6 +353,9 @@ type IterResult struct {
 	Header   *model.Rec
 	Iter     mcap.MessageIterator
 	Reader   *mcap.Reader
+	// AgainCalls: further calls to make after the terminal error; Again: their outcomes
+	AgainCalls int
+	Again      []string
 	// AfterEach, when set, is invoked after every successful NextInto.
 }
 
@@ -431,6 +454,14 @@ func tripleRec(s *mcap.Schema, c *mcap.Channel, m *mcap.Message) *model.Rec {
 	return r
 }
 
+// againOutcome classifies the error of a call made after the read already failed.
+func againOutcome(err error) string {
+	if errors.Is(err, io.EOF) {
+		return "eof"
+	}
+	return "error"
+}
+
 // Iterate drains a message iterator.
 func Iterate(it mcap.MessageIterator, mode string, max int, res *IterResult, after func(n int) error) {
 	var kept []keptMsg
@@ -483,6 +514,20 @@ func Iterate(it mcap.MessageIterator, mode string, max int, res *IterResult, aft
 		}
 	})
 	res.Panic = pi
+	if pi == nil && res.AgainCalls > 0 && res.Err != nil && !errors.Is(res.Err, io.EOF) && !strings.HasPrefix(res.Err.Error(), "harness") {
+		for i := 0; i < res.AgainCalls; i++ {
+			out := "data"
+			if p2 := Guard(func() {
+				_, _, _, err := it.NextInto(nil)
+				if err != nil {
+					out = againOutcome(err)
+				}
+			}); p2 != nil {
+				out = "panic: " + p2.String()
+			}
+			res.Again = append(res.Again, out)
+		}
+	}
 	for _, k := range kept {
 		now := tripleRec(k.s, k.c, k.m)
 		if d := model.Diff(k.snapshot, now); d != "" {
@@ -523,6 +568,7 @@ func ReadMessages(src io.Reader, spec ReadSpec) *IterResult {
 		return res
 	}
 	res.Iter = it
+	res.AgainCalls = spec.AgainAfterErr
 	Iterate(it, spec.NextMode, spec.MaxMsgs, res, nil)
 	return res
 }
